@@ -145,6 +145,9 @@ class Real(Type):
     def decode(self, data):
         if isinstance(data, float):
             return data
+        elif isinstance(data, int) and not isinstance(data, bool):
+            # A JSON number without fraction or exponent.
+            return float(data)
         else:
             return {
                 'INF': float('inf'),
